@@ -270,6 +270,11 @@ class Interp:
                     self.bind(sp, field(val, str(i)), env, fr)
         elif k in ("Ref", "Deref"):
             self.bind(p["p"], val, env, fr)
+        elif k == "Slice" and "mid" not in p and _ARR_TY.match(strip_ref(p.get("ty") or "")) \
+                and int(_ARR_TY.match(strip_ref(p["ty"])).group(1)) == len(p["pre"]) + len(p["post"]):
+            # irrefutable array pattern [a, b, .., z] without a rest binding: element i of the array
+            for i, sp in enumerate(p["pre"] + p["post"]):
+                self.bind(sp, index(val, lit(i)), env, fr)
         else:
             self.note(fr, "unmodelled pattern kind %s" % k)
 
@@ -1146,7 +1151,19 @@ class Interp:
                     return None
                 cur = res[1]
             return (UNIT, cur)
+        cp = self.copy_loop(it, pat, body, env)
+        if cp is not None:
+            return (UNIT, cp)
         # symbolic fold over the iterator
+        muts = [t for t in Tm.subterms(it) if t.op == "iter_mut"]
+        if muts:
+            # the items are mutable references into a buffer and the number of iterations is not known: whatever the body
+            # writes through them is not representable here - say so and forget the buffer's contents
+            self.note(fr, "mutable iteration of unknown length: writes through the items are not modelled", e)
+            env = dict(env)
+            for t in muts:
+                if t.args[0].op == "placeref" and t.args[0].args[0] in env:
+                    env[t.args[0].args[0]] = self.fresh("havoc")
         written = sorted(x for x in self.assigned_locals(body) if x in env)
         names = tuple(str(x) for x in written)
         item = self.fresh("item")
@@ -1171,6 +1188,60 @@ class Interp:
         for i, w in enumerate(written):
             env[w] = mk("proj", fold, i)
         return (UNIT, env)
+
+    def max_len(self, t):
+        """an upper bound on the length of a slice-valued term, when one is known"""
+        n = self.length_of(t)
+        if n is not None:
+            return n
+        if t.op in ("rev", "iter"):
+            return self.max_len(t.args[0])
+        if t.op == "item_of" and t.args[0].op in ("chunks", "rchunks", "chunks_exact") and Tm.is_lit(t.args[0].args[1]):
+            return t.args[0].args[1].args[0]
+        return None
+
+    def copy_loop(self, it, pat, body, env):
+        """`for (d, s) in BUF.iter_mut().zip(SRC) { *d = *s }` with len(SRC) <= len(BUF): the hand-written
+        `BUF[..SRC.len()].copy_from_slice(SRC)`.  Returns the environment after the loop, or None if this is not that idiom."""
+        if it.op != "zip" or pat.get("k") != "Tuple" or len(pat.get("ps", [])) != 2 or any(p.get("k") != "Bind" for p in pat["ps"]):
+            return None
+        sides = list(it.args[:2])
+        mi = [i for i in (0, 1) if sides[i].op == "iter_mut" and sides[i].args[0].op == "placeref"]
+        if len(mi) != 1:
+            return None
+        mi = mi[0]
+        d_id, s_id = pat["ps"][mi]["id"], pat["ps"][1 - mi]["id"]
+        b = body
+        while isinstance(b, dict) and b.get("k") == "Block" and not b["body"].get("expr") and len(b["body"]["stmts"]) == 1 and b["body"]["stmts"][0]["k"] in ("Semi", "Expr"):
+            b = b["body"]["stmts"][0]["e"]
+        if not (isinstance(b, dict) and b.get("k") == "Assign"):
+            return None
+
+        def is_local(e, lid, deref):
+            if deref:
+                if not (e.get("k") == "Unary" and e.get("op") == "Deref"):
+                    return False
+                e = e["x"]
+            return e.get("k") == "Path" and e.get("r", {}).get("res") == "Local" and e["r"].get("id") == lid
+        src_is_ref = (pat["ps"][1 - mi].get("ty") or "").startswith("&")
+        if not (is_local(b["l"], d_id, True) and is_local(b["r"], s_id, src_is_ref)):
+            return None
+        src = sides[1 - mi]
+        while src.op == "iter":
+            src = src.args[0]
+        if src.op == "rev" and src.args[0].op == "iter":
+            src = mk("rev", src.args[0].args[0])
+        pr = sides[mi].args[0]
+        self.cur_env = env
+        n_buf, n_src = self.length_of_place(pr), self.max_len(src)
+        if n_buf is None or n_src is None or n_src > n_buf:
+            return None
+        ln = mk("len", src.args[0] if src.op == "rev" else src)
+        env = dict(env)
+        pl = (pr.args[0], list(pr.args[1]))
+        cur = self.read_place(pl, env)
+        self.write_place(pl, store(cur, mk("struct", "core::ops::RangeTo", ("end",), ln), src), env)
+        return env
 
     # ---- calls -------------------------------------------------------------------------------
     def x_Call(self, e, env, fr):
